@@ -3696,12 +3696,21 @@ async def _helper_rename_folder(mbox: Mailbox, new_name: str) -> None:
         """
         mbox_old_name = old_mbox.name
         async with srvr.active_mailboxes_lock:
+            mb = srvr.active_mailboxes[mbox_old_name]
+
+            # A SPECIAL-USE attribute goes with the name (that is how a
+            # mailbox gets it when it is found at start up), not with the
+            # mailbox.
+            #
+            mb.attributes -= set(SPECIAL_USE_ATTRS.values())
+            if mbox_new_name in SPECIAL_USE_ATTRS:
+                mb.attributes.add(SPECIAL_USE_ATTRS[mbox_new_name])
+
             await srvr.db.execute(
-                "UPDATE mailboxes SET name=? WHERE id=?",
-                (mbox_new_name, old_id),
+                "UPDATE mailboxes SET name=?, attributes=? WHERE id=?",
+                (mbox_new_name, ",".join(mb.attributes), old_id),
             )
 
-            mb = srvr.active_mailboxes[mbox_old_name]
             del srvr.active_mailboxes[mbox_old_name]
             mb.name = mbox_new_name
             mb.mailbox = srvr.mailbox.get_folder(mbox_new_name)
